@@ -101,9 +101,16 @@ Stats(b, e, l, w, blocked) ==
         held == CountIf(ids, LAMBDA r : Live(H(b, r)))
         \* streams the peer promised (PUSH_PROMISE) and the application has not been handed yet: judged by a rule of their own
         resv == CountIf(ids, LAMBDA r : WS(w, r).resR /\ ~WS(w, r).surfaced /\ ~Live(H(b, r)))
-        unheld == s.store_len - held - resv
+        \* every record in the slab counts (records unlinked from the id map included); every stream the application holds
+        \* a handle of accounts for one of them
+        heldStreams == Cardinality({x \in DOMAIN b.h : Live(b.h[x])})
+        unheld == s.slab_len - heldStreams - resv
+        stray == s.slab_len - s.store_len
         b0 == IF Cfg(b).max_conc >= 0
-              THEN Check(b, "C18.store_bound", unheld <= UnheldBound(b), l, 0, <<"store_len", s.store_len, "held", held, "reserved", resv, "bound", UnheldBound(b)>>)
+              THEN Check(b, "C18.store_bound", unheld <= UnheldBound(b), l, 0,
+                         IF blocked /\ unheld - stray <= UnheldBound(b)
+                         THEN <<"unlinked_records_waiting_for_a_blocked_socket", stray, "bound", UnheldBound(b)>>
+                         ELSE <<"slab_len", s.slab_len, "held", heldStreams, "reserved", resv, "bound", UnheldBound(b)>>)
               ELSE b
         b1 == IF Cfg(b).max_conc >= 0 /\ b.role = "c"
               THEN Check(b0, "C18.reserved_bound", resv <= UnheldBound(b), l, 0, <<"promised_streams_not_yet_polled", resv, "bound", UnheldBound(b)>>)
@@ -145,11 +152,11 @@ Stats(b, e, l, w, blocked) ==
               THEN Check(b5, "C19.counts_idle", s.num_recv_streams <= openPeer /\ s.num_send_streams <= openLocal + pendingOpen, l, 0,
                          <<"num_recv_streams", s.num_recv_streams, "open", openPeer, "num_send_streams", s.num_send_streams, "open", openLocal + pendingOpen>>)
               ELSE b5
-        b7 == IF judge /\ s.store_len = 0
+        b7 == IF judge /\ s.slab_len = 0
               THEN Check(b6, "C19.flow_idle", s.send_available = s.send_window /\ s.in_flight_data = 0 /\ s.recv_buffer_len = 0 /\ s.send_buffer_len = 0,
                          l, 0, <<s.send_available, s.send_window, s.in_flight_data, s.recv_buffer_len, s.send_buffer_len>>)
               ELSE b6
-    IN [b7 EXCEPT !.lastStore = s.store_len]
+    IN [b7 EXCEPT !.lastStore = s.slab_len]
 
 \* ---- frames E consumed --------------------------------------------------------------------------------
 In(b, e, l, w) ==
